@@ -95,6 +95,10 @@ add_parsed_row(kdump_ctx_t *ctx, struct attr_data *dir,
 		return set_error(ctx, KDUMP_ERR_SYSTEM,
 				 "Cannot set VMCOREINFO '%.*s'",
 				 (int) keylen, key);
+	if (attr->template->type != KDUMP_STRING)
+		return set_error(ctx, KDUMP_ERR_INVALID,
+				 "VMCOREINFO '%.*s' is a directory",
+				 (int) keylen, key);
 	res = set_attr_sized_string(ctx, attr, ATTR_DEFAULT, val, vallen);
 	if (res != KDUMP_OK)
 		return set_error(ctx, res,
@@ -200,6 +204,9 @@ lines_post_hook(kdump_ctx_t *ctx, struct attr_data *lineattr)
 	if (!attr)
 		return set_error(ctx, KDUMP_ERR_SYSTEM,
 				 "Cannot set VMCOREINFO '%s'", key);
+	if (attr->template->type != tmpl.type)
+		return set_error(ctx, KDUMP_ERR_INVALID,
+				 "VMCOREINFO '%s' is a directory", key);
 	return set_error(ctx,
 			 (tmpl.type == KDUMP_NUMBER)
 			 ? set_attr_number(ctx, attr, ATTR_DEFAULT, num)
